@@ -364,6 +364,10 @@ package stree
 //@   ghost cmp func(T, T) int
 //@   requires [C03] c != nil && len(c.path) > 0 && pathOK(c) && ordPath(c.path, cmp)
 //@   ensures  [C03] upMax: cur(c).right == nil ==> rank(cmp, cur(c).X) in c.path[result.1 + 1].keys && forall k int :: {k in c.path[result.1 + 1].keys} k in c.path[result.1 + 1].keys ==> k <= rank(cmp, cur(c).X)
+//@   ensures  [C03] downNext: cur(c).right != nil ==> rank(cmp, result.0.X) in c.path[0].keys && rank(cmp, result.0.X) > rank(cmp, cur(c).X)
+//@   ensures  [C03] upNext: cur(c).right == nil && result.1 >= 0 ==> rank(cmp, c.path[result.1].X) in c.path[0].keys && rank(cmp, c.path[result.1].X) > rank(cmp, cur(c).X)
+//@   at before "return min, -1": assert [C03] min in c.path[0].desc
+//@   at before "return min, -1": assert [C03] rank(cmp, min.X) in c.path[len(c.path) - 1].keys
 //@   loop 1: invariant [C03] max: rank(cmp, cur(c).X) in c.path[i].keys && forall k int :: {k in c.path[i].keys} k in c.path[i].keys ==> k <= rank(cmp, cur(c).X)
 //@   ensures  [C03] down: cur(c).right != nil ==> result.0 == cur(c).right && result.1 == -1
 //@   ensures  [C03] up: cur(c).right == nil ==> result.0 == nil && -1 <= result.1 && result.1 < len(c.path) - 1
@@ -377,6 +381,10 @@ package stree
 //@   ghost cmp func(T, T) int
 //@   requires [C03] c != nil && len(c.path) > 0 && pathOK(c) && ordPath(c.path, cmp)
 //@   ensures  [C03] upMin: cur(c).left == nil ==> rank(cmp, cur(c).X) in c.path[result.1 + 1].keys && forall k int :: {k in c.path[result.1 + 1].keys} k in c.path[result.1 + 1].keys ==> k >= rank(cmp, cur(c).X)
+//@   ensures  [C03] downPrev: cur(c).left != nil ==> rank(cmp, result.0.X) in c.path[0].keys && rank(cmp, result.0.X) < rank(cmp, cur(c).X)
+//@   ensures  [C03] upPrev: cur(c).left == nil && result.1 >= 0 ==> rank(cmp, c.path[result.1].X) in c.path[0].keys && rank(cmp, c.path[result.1].X) < rank(cmp, cur(c).X)
+//@   at before "return max, -1": assert [C03] max in c.path[0].desc
+//@   at before "return max, -1": assert [C03] rank(cmp, max.X) in c.path[len(c.path) - 1].keys
 //@   loop 1: invariant [C03] min: rank(cmp, cur(c).X) in c.path[i].keys && forall k int :: {k in c.path[i].keys} k in c.path[i].keys ==> k >= rank(cmp, cur(c).X)
 //@   ensures  [C03] down: cur(c).left != nil ==> result.0 == cur(c).left && result.1 == -1
 //@   ensures  [C03] up: cur(c).left == nil ==> result.0 == nil && -1 <= result.1 && result.1 < len(c.path) - 1
@@ -387,13 +395,21 @@ package stree
 //@   loop 1: decreases j + 1
 //@
 //@ func (*Cursor).HasNext
-//@   requires [C03] c != nil ==> pathOK(c)
+//@   ghost cmp func(T, T) int
+//@   requires [C03] c != nil ==> pathOK(c) && ordPath(c.path, cmp)
+//@   ensures  [C03] more: c != nil && len(c.path) != 0 && result ==> !(forall k int :: {k in c.path[0].keys} k in c.path[0].keys ==> k <= rank(cmp, cur(c).X))
+//@   ensures  [C03] nomore: c != nil && len(c.path) != 0 && !result ==> forall k int :: {k in c.path[0].keys} k in c.path[0].keys ==> k <= rank(cmp, cur(c).X)
+//@   call findNext#1: cmp = cmp
 //@   ensures  [C03] invalid: c == nil || len(c.path) == 0 ==> !result
 //@   ensures  [C03] down: c != nil && len(c.path) != 0 && cur(c).right != nil ==> result
 //@   ensures  [C03] up: c != nil && len(c.path) != 0 && cur(c).right == nil ==> (result <==> !(forall a int, b int :: {c.path[a], c.path[b]} 0 <= a && b == a + 1 && b < len(c.path) ==> c.path[b] != c.path[a].left))
 //@
 //@ func (*Cursor).HasPrev
-//@   requires [C03] c != nil ==> pathOK(c)
+//@   ghost cmp func(T, T) int
+//@   requires [C03] c != nil ==> pathOK(c) && ordPath(c.path, cmp)
+//@   ensures  [C03] more: c != nil && len(c.path) != 0 && result ==> !(forall k int :: {k in c.path[0].keys} k in c.path[0].keys ==> k >= rank(cmp, cur(c).X))
+//@   ensures  [C03] nomore: c != nil && len(c.path) != 0 && !result ==> forall k int :: {k in c.path[0].keys} k in c.path[0].keys ==> k >= rank(cmp, cur(c).X)
+//@   call findPrev#1: cmp = cmp
 //@   ensures  [C03] invalid: c == nil || len(c.path) == 0 ==> !result
 //@   ensures  [C03] down: c != nil && len(c.path) != 0 && cur(c).left != nil ==> result
 //@   ensures  [C03] up: c != nil && len(c.path) != 0 && cur(c).left == nil ==> (result <==> !(forall a int, b int :: {c.path[a], c.path[b]} 0 <= a && b == a + 1 && b < len(c.path) ==> c.path[b] != c.path[a].right))
@@ -445,13 +461,20 @@ package stree
 //@   loop 1: invariant [C03] rest: forall a int, b int :: {c.path[a], c.path[b]} old(len(c.path)) < b && b == a + 1 && b < len(c.path) ==> c.path[b] == c.path[a].right
 //@
 //@ func (*Cursor).Clone
-//@   requires [C03] c != nil ==> pathOK(c)
+//@   ghost cmp func(T, T) int
+//@   requires [C03] c != nil ==> pathOK(c) && ordPath(c.path, cmp)
+//@   ensures  [C03] ord: result != nil ==> ordPath(result.path, cmp)
 //@   ensures  [C03] invalid: c == nil || len(c.path) == 0 ==> result == c
 //@   ensures  [C03] copy: c != nil && len(c.path) != 0 ==> result != nil && fresh(result) && pathOK(result) && len(result.path) == len(c.path) && fresh(result.path) && forall k int :: {result.path[k]} 0 <= k && k < len(c.path) ==> result.path[k] == c.path[k]
 //@   ensures  [C03] untouched: c != nil ==> len(c.path) == old(len(c.path)) && samePrefix(c, len(c.path))
 //@
 //@ func (*node).pathTo
 //@   role compare ord
+//@   requires [C03] treeRO(n, compare)
+//@   ensures [C03] ord: ordPath(result, compare)
+//@   ensures [C03] present: inK(n, rank(compare, key)) <==> (len(result) > 0 && ord(compare, key, result[len(result) - 1].X) == 0)
+//@   loop 1: invariant [C03] ord: ordPath(path, compare) && (cur != nil ==> n != nil && cur in n.desc)
+//@   loop 1: invariant [C03] search: inK(n, rank(compare, key)) <==> inK(cur, rank(compare, key))
 //@   ensures [C03] path: nodePath(result) && (n == nil <==> len(result) == 0) && (len(result) > 0 ==> result[0] == n)
 //@   ensures [C03] found: len(result) > 0 ==> ord(compare, key, result[len(result) - 1].X) == 0 || (ord(compare, key, result[len(result) - 1].X) < 0 && result[len(result) - 1].left == nil) || (ord(compare, key, result[len(result) - 1].X) > 0 && result[len(result) - 1].right == nil)
 //@   ensures [C03] steered: forall a int, b int :: {result[a], result[b]} 0 <= a && b == a + 1 && b < len(result) ==> (ord(compare, key, result[a].X) < 0 && result[b] == result[a].left) || (ord(compare, key, result[a].X) > 0 && result[b] == result[a].right)
@@ -462,10 +485,13 @@ package stree
 //@ func (*Tree).Cursor
 //@   ensures [C03] absent: result == nil || (fresh(result) && len(result.path) > 0 && pathOK(result) && result.path[0] == t.root && ord(t.compare, cur(result).X, key) == 0)
 //@   ensures [C03] steered: result != nil ==> forall a int, b int :: {result.path[a], result.path[b]} 0 <= a && b == a + 1 && b < len(result.path) ==> (ord(t.compare, key, result.path[a].X) < 0 && result.path[b] == result.path[a].left) || (ord(t.compare, key, result.path[a].X) > 0 && result.path[b] == result.path[a].right)
-//@   requires t != nil
+//@   requires [C03] treeInv(t)
+//@   ensures [C03] ord: result != nil ==> ordPath(result.path, t.compare)
+//@   ensures [C03] present: result != nil <==> rank(t.compare, key) in t.elems
 //@
 //@ func (*Tree).Root
-//@   requires t != nil
+//@   requires [C03] treeInv(t)
+//@   ensures [C03] ord: result != nil ==> ordPath(result.path, t.compare)
 //@   ensures [C03] empty: t.root == nil ==> result == nil
 //@   ensures [C03] root: t.root != nil ==> result != nil && fresh(result) && len(result.path) == 1 && result.path[0] == t.root && pathOK(result)
 //@
